@@ -49,11 +49,14 @@ exit $rc
 
 CFG = dict(
     gen=[dict(tool="facts", mode="c13.locks", out="LockFacts.lean", args=[])],
-    theorems=["lock_facts_well_locked", "wellLocked_sound", "mutex_invariant", "linearizable", "linearizable'",
+    theorems=["lock_facts_well_locked", "mutex_invariant", "linearizable",
+              "fine_refines_atomic", "fine_linearizable", "programs_correct", "critical_section_atomic",
+              "locked_artifact_is_atomic",
               "artifact_snapshot", "paramData_snapshot", "completed_before_is_visible", "snapshot_params",
-              "spec_depends_on_statics", "witness_check_sound", "micro_uninterrupted", "unlocked_mixes_states",
-              "unlocked_not_linearizable", "locked_never_bad",
-              "critical_section_atomic", "artifactTrace_eval", "locked_artifact_is_atomic"],
+              "witness_check_sound", "unlocked_mixes_states", "unlocked_not_linearizable"],
+    # corollaries / lemmas about the predicates, kernel-checked with the module, not counted as obligations (ignored by the check)
+    helper_theorems=["linearizable'", "locked_never_bad", "wellLocked_sound", "micro_uninterrupted", "artifactTrace_eval",
+                     "spec_depends_on_statics"],
     streams=[dict(name="c13", n=dict(quick=1500, thorough=40000), timeout=dict(quick=600, thorough=3600))],
     extras=[dict(name="race-detector (go build -race; stream c13; quick: GOMAXPROCS varied per history; thorough: also pinned 1,2,16)",
                  cmd=["bash", "-c", RACE_C13, "race_c13", "{work}", "{seed}", "{tier}"],
